@@ -172,7 +172,17 @@ func frameTok(f hframe) string {
 
 // ---------------------------------------------------------------- the implementation on one case line
 
-func runHpack(line string) string {
+func runHpack(line string) (res string) {
+	// a panic in the code under test is a result, not the end of the run
+	defer func() {
+		if r := recover(); r != nil {
+			res = "panic"
+		}
+	}()
+	return runHpackCase(line)
+}
+
+func runHpackCase(line string) string {
 	f := strings.Fields(line)
 	switch f[0] {
 	case "dechist":
@@ -809,6 +819,7 @@ func (c *genctx) randomCuts(n int) []int {
 }
 
 func genHpackDec(c *genctx) {
+	c.hugeStringLengths()
 	sweep := 0
 	thorough := c.tier == "thorough"
 
@@ -1157,5 +1168,31 @@ func genHpackEnc(c *genctx) {
 			setmax()
 		}
 		emit("history", "enchist "+flags+" "+strings.Join(ops, " "), true)
+	}
+}
+
+// hugeLengths are string-length prefixes around the widths the decoder's integers go through
+// (int, uint32, uint64): a length that wraps or turns negative on the way must still be refused.
+func (c *genctx) hugeStringLengths() {
+	vals := []uint64{1<<31 - 1, 1 << 31, 1<<32 - 1, 1 << 32, 1<<32 + 5, 1 << 62, 1<<63 - 1, 1 << 63, 1<<63 + 1, 1<<63 + 100, 1<<63 + 126}
+	for _, v := range vals {
+		for _, huff := range []byte{0x00, 0x80} {
+			var e []byte
+			e = append(e, huff|0x7f)
+			r := v - 127
+			for r >= 128 {
+				e = append(e, byte(r&127)|128)
+				r >>= 7
+			}
+			e = append(e, byte(r))
+			tail := c.r.bytes(c.r.intn(6))
+			c.emitDec("string-huge-length", "readstr "+hx(append(append([]byte(nil), e...), tail...)), false)
+			// as the value of a literal field, and as its name
+			blk := append([]byte{0x00, 0x01, 0x61}, e...)
+			c.emitDec("string-huge-length", fmt.Sprintf("dechist 4096 %s", hx(append(blk, tail...))), false)
+			blk2 := append([]byte{0x40}, e...)
+			c.emitDec("string-huge-length", fmt.Sprintf("dechist 4096 %s", hx(append(blk2, tail...))), false)
+			c.emitDec("string-huge-length", fmt.Sprintf("decframes 4096 Hn:%s Ce:%s", hx(blk), hx(tail)), false)
+		}
 	}
 }
